@@ -1754,6 +1754,57 @@ def rule_bitstream_access(prog, fixture=False):
     return r
 
 
+# ---------------------------------------------------------------- R-C07-16
+def rule_owning_classes_not_copied(prog, fixture=False):
+    r = RuleResult("R-C07-16", "a class whose destructor releases a raw pointer member (free/delete) and which has no "
+                   "copy constructor of its own is never copied: no object of it is constructed from another object of "
+                   "the same class (`throw named_local;`, pass or return by value) - the copy shares the pointer and the "
+                   "second destructor frees it again (abort / use after free while the handler prints what())",
+                   floor=0 if fixture else 1)
+    owning = {}
+    for fn in prog.functions.values():
+        if not fn.name.startswith("~"):
+            continue
+        for n in fn.walk():
+            rel = None
+            if n.get("k") == "CallExpr" and notpl(n.get("q") or "") in ("free", "std::free"):
+                rel = call_args(n)[0] if call_args(n) else None
+            elif n.get("k") == "CXXDeleteExpr" and n.get("c"):
+                rel = n["c"][0]
+            m = strip_all(rel) if rel is not None else None
+            if m is not None and m.get("k") == "MemberExpr" and m.get("dk") == "Field":
+                cls = notpl(fn.qn.rsplit("::", 1)[0])
+                owning[cls] = (fn, m.get("n"))
+    for cls, (dtor, field) in owning.items():
+        rec = [rc for q_, rc in prog.records.items() if notpl(q_) == cls]
+        short = cls.split("::")[-1]
+        has_copy = False
+        for f in prog.functions.values():
+            if f.name == short and notpl(f.qn.rsplit("::", 1)[0]) == cls and len(f.params) == 1 and \
+                    notpl((f.params[0].get("t") or "").replace("const ", "").replace("&", "").strip()).split("::")[-1] == short:
+                has_copy = True
+        if has_copy:
+            r.add("%s::copy-constructor" % cls, dtor.loc(dtor.body) if dtor.body else "?", True, "the class defines its own copy constructor",
+                  nontrivial=False)
+            continue
+        copies = []
+        for f in prog.functions.values():
+            for n in f.walk():
+                if n.get("k") in ("CXXConstructExpr", "CXXTemporaryObjectExpr") and notpl(n.get("cls") or "") == cls and len(n.get("c", [])) == 1:
+                    a = strip(n["c"][0])
+                    at = notpl(((a or {}).get("t") or (a or {}).get("ct") or "").replace("const ", "").replace("&", "").strip())
+                    if at == cls:
+                        copies.append((f, n))
+        key = "%s::copies" % cls
+        if copies:
+            f, n = copies[0]
+            r.add(key, f.loc(n), False, "an object of %s (destructor frees `%s`, no copy constructor) is copied here (`%s`): both "
+                  "copies free the same pointer" % (short, field, show(n)[:50]))
+        else:
+            r.add(key, dtor.loc(dtor.body) if dtor.body else "?", True, "objects of %s are only ever constructed in place" % short)
+    return r
+
+
 def run(ctx):
     from . import c06, c10
     prog = ctx.prog("dfs", "N")
@@ -1762,7 +1813,7 @@ def run(ctx):
             rule_diagnosed_failures(prog), rule_nonempty_access(prog),
             c06.rule_track_checks_unconditional(prog, rule_id="R-C07-11"),
             c10.rule_counters_after_reset(prog, rule_id="R-C07-12"), rule_side_effect_results(prog),
-            rule_rewind_changes_state(prog), rule_bitstream_access(prog)]
+            rule_rewind_changes_state(prog), rule_bitstream_access(prog), rule_owning_classes_not_copied(prog)]
 
 
 SELFTESTS = [
